@@ -106,7 +106,7 @@ fn seq_containers(w: &World, ri: usize) -> Vec<(Vec<String>, char, String, u32)>
     let txn = w.reps[ri].doc.transact();
     let mut out = Vec::new();
     if let Some(t) = txn.get_text("t") {
-        let n = t.get_string(&txn).chars().count() as u32;
+        let n = World::text_units(&txn, &t);
         out.push((vec!["t".to_string()], 't', "t|".to_string(), n));
     }
     if let Some(a) = txn.get_array("a") {
@@ -253,7 +253,7 @@ fn do_quote(w: &mut World, qs: &mut QState, st: &Value) -> Value {
         let mut txn = doc.transact_mut();
         let target = nav(w, &txn, &path)?;
         let (kind, n) = match &target {
-            Out::YText(t) => ('t', t.get_string(&txn).chars().count() as u32),
+            Out::YText(t) => ('t', World::text_units(&txn, t)),
             Out::YArray(a) => ('a', a.len(&txn)),
             _ => return Err("source is not a sequence".into()),
         };
@@ -287,7 +287,16 @@ fn do_quote(w: &mut World, qs: &mut QState, st: &Value) -> Value {
             return Err("range outside the source".into());
         }
         let (oi, oj) = match &target {
-            Out::YText(t) => (w.unit_offset(&txn, t, i), w.unit_offset(&txn, t, j)),
+            Out::YText(t) => {
+                // a bound names a whole character: the unit recorded for it is the character's first unit where the
+                // range begins with / ends before the character, its last unit where it begins behind / ends with it
+                let l = w.text_layout(&txn, t);
+                let (fi, li, oi) = w.char_at(&l, i);
+                let (fj, lj, oj) = w.char_at(&l, j);
+                resolved.1 = if si { fi } else { li };
+                resolved.4 = if ei { lj } else { fj };
+                (oi, oj)
+            }
             _ => (i, j),
         };
         let range: (Bound<u32>, Bound<u32>) = (
@@ -523,7 +532,7 @@ fn deref_one(w: &World, ri: usize, hd: &Handle) -> Value {
                 let ids: Vec<Id> = match hd.kind {
                     't' => {
                         let t: WeakRef<TextRef> = WeakRef::from(wr);
-                        t.get_string(&txn).chars().map(|c| w.tags.of_char(c)).collect()
+                        w.tags.of_str(&t.get_string(&txn))
                     }
                     'a' => {
                         let a: WeakRef<ArrayRef> = WeakRef::from(wr);
